@@ -3,6 +3,8 @@
 package peerset
 
 import (
+	"context"
+	"errors"
 	"fmt"
 	"io"
 	"math"
@@ -42,23 +44,150 @@ var c30Shuffle = vhNewRng(12345)
 
 type c30Sys struct {
 	ps      *PeerSet
+	h       *Handler // non-nil: the ops go through the public Handler API and the actor goroutine
 	pending int
 	mask    [c30NP]bool
 	prev    [c30NP]string
 }
 
-func c30New(maxIn, maxOut uint32, ro bool) *c30Sys {
+func c30New(maxIn, maxOut uint32, ro bool, via bool) *c30Sys {
 	c30Once.Do(func() { logger.Patch(log.SetWriter(io.Discard), log.SetLevel(log.Critical)) })
-	ps, err := newPeerSet(NewConfigSet(maxIn, maxOut, ro, time.Hour))
-	if err != nil {
-		panic(err)
+	y := &c30Sys{}
+	if via {
+		// the ticker of the actor never fires: the periodic allocSlots is the explicit op `tk`
+		h, err := NewPeerSetHandler(&ConfigSet{Set: []*config{{maxInPeers: maxIn, maxOutPeers: maxOut,
+			reservedOnly: ro, periodicAllocTime: 100000 * time.Hour}}})
+		if err != nil {
+			panic(err)
+		}
+		h.Start(context.Background())
+		y.h = h
+		y.ps = h.peerSet
+	} else {
+		ps, err := newPeerSet(NewConfigSet(maxIn, maxOut, ro, time.Hour))
+		if err != nil {
+			panic(err)
+		}
+		ps.resultMsgCh = make(chan Message, 4096)
+		y.ps = ps
 	}
-	ps.resultMsgCh = make(chan Message, 4096)
-	y := &c30Sys{ps: ps}
 	for i := range y.prev {
 		y.prev[i] = "x"
 	}
 	return y
+}
+
+// close stops the actor goroutine of a Handler-driven system.
+func (y *c30Sys) close() {
+	if y.h != nil {
+		y.h.Stop()
+	}
+}
+
+// barrier returns when the actor has served every action sent before: the actor serves the queue
+// in order and answers a sortedPeers action on an unbuffered channel.
+func (y *c30Sys) barrier() peer.IDSlice { return <-y.h.SortedPeers(0) }
+
+// sorted prints a sortedPeers result; peers of equal reputation (whose order Go leaves to the map
+// order) are put in ascending peer order, nothing else is reordered.
+func (y *c30Sys) sorted(ids peer.IDSlice) string {
+	idx := make([]int, len(ids))
+	rep := make([]Reputation, len(ids))
+	for i, id := range ids {
+		idx[i] = c30Idx(id)
+		if n, ok := y.ps.peerState.nodes[id]; ok {
+			rep[i] = n.reputation
+		}
+	}
+	for a := 0; a < len(idx); {
+		b := a
+		for b < len(idx) && rep[b] == rep[a] {
+			b++
+		}
+		sort.Ints(idx[a:b])
+		a = b
+	}
+	out := "S"
+	for _, i := range idx {
+		out += strconv.Itoa(i)
+	}
+	if len(idx) == 0 {
+		out += "-"
+	}
+	return out
+}
+
+// call performs the op once: through the synchronous method, or (Handler-driven) through the
+// public API followed by the barrier.  `tk` and `dcr` have no API: they are called directly
+// while the actor is idle.
+func (y *c30Sys) call(tok []string) (err error, reply string) {
+	ps := y.ps
+	rep := func() ReputationChange {
+		v, e := strconv.ParseInt(tok[1], 10, 32)
+		if e != nil {
+			panic("bad rep")
+		}
+		return ReputationChange{Value: Reputation(v), Reason: "verif"}
+	}
+	switch tok[0] {
+	case "tk":
+		return ps.allocSlots(0), ""
+	case "dcr":
+		return ps.disconnect(0, RefusedDrop, c30Peers(tok[1])...), ""
+	}
+	if y.h != nil {
+		switch tok[0] {
+		case "ar":
+			y.h.AddReservedPeer(0, c30Peers(tok[1])...)
+		case "rr":
+			y.h.RemoveReservedPeer(0, c30Peers(tok[1])...)
+		case "sr":
+			y.h.SetReservedPeer(0, c30Peers(tok[1])...)
+		case "ap":
+			y.h.AddPeer(0, c30Peers(tok[1])...)
+		case "rp":
+			y.h.RemovePeer(0, c30Peers(tok[1])...)
+		case "in":
+			y.h.Incoming(0, c30Peers(tok[1])...)
+		case "dc":
+			y.h.DisconnectPeer(0, c30Peers(tok[1])...)
+		case "rep":
+			y.h.ReportPeer(rep(), c30Peers(tok[2])...)
+		case "so":
+			y.h.actionQueue <- action{actionCall: setReservedOnly} // no public method sends this action
+		case "sp":
+			return nil, y.sorted(y.barrier())
+		default:
+			panic("bad op")
+		}
+		y.barrier()
+		return nil, ""
+	}
+	switch tok[0] {
+	case "ar":
+		err = ps.addReservedPeers(0, c30Peers(tok[1])...)
+	case "rr":
+		err = ps.removeReservedPeers(0, c30Peers(tok[1])...)
+	case "sr":
+		err = ps.setReservedPeer(0, c30Peers(tok[1])...)
+	case "ap":
+		err = ps.addPeer(0, c30Peers(tok[1]))
+	case "rp":
+		err = ps.removePeer(0, c30Peers(tok[1])...)
+	case "in":
+		err = ps.incoming(0, c30Peers(tok[1])...)
+	case "dc":
+		err = ps.disconnect(0, UnknownDrop, c30Peers(tok[1])...)
+	case "rep":
+		err = ps.reportPeer(rep(), c30Peers(tok[2])...)
+	case "sp":
+		return nil, y.sorted(ps.peerState.sortedPeers(0))
+	case "so":
+		err = errors.New("not implemented yet") // what the actor answers; there is no method
+	default:
+		panic("bad op")
+	}
+	return err, ""
 }
 
 func c30Idx(p peer.ID) int {
@@ -256,31 +385,7 @@ func (y *c30Sys) do(tok []string) (res string) {
 		mark := now.Add(-time.Duration(y.pending)*time.Second - 300*time.Millisecond)
 		ps.created = mark
 		ps.latestTimeUpdate = mark
-		var err error
-		switch tok[0] {
-		case "ar":
-			err = ps.addReservedPeers(0, c30Peers(tok[1])...)
-		case "rr":
-			err = ps.removeReservedPeers(0, c30Peers(tok[1])...)
-		case "ap":
-			err = ps.addPeer(0, c30Peers(tok[1]))
-		case "rp":
-			err = ps.removePeer(0, c30Peers(tok[1])...)
-		case "in":
-			err = ps.incoming(0, c30Peers(tok[1])...)
-		case "dc":
-			err = ps.disconnect(0, UnknownDrop, c30Peers(tok[1])...)
-		case "rep":
-			v, e := strconv.ParseInt(tok[1], 10, 32)
-			if e != nil {
-				panic("bad rep")
-			}
-			err = ps.reportPeer(ReputationChange{Value: Reputation(v), Reason: "verif"}, c30Peers(tok[2])...)
-		case "tk":
-			err = ps.allocSlots(0)
-		default:
-			panic("bad op")
-		}
+		err, reply := y.call(tok)
 		end := time.Now()
 		if y.pending > 0 && (end.Second() != now.Second() || end.Sub(now) > 500*time.Millisecond) && attempt < 20 {
 			// the wall clock moved to another second (or the process stalled): redo
@@ -290,12 +395,12 @@ func (y *c30Sys) do(tok []string) (res string) {
 		if !ps.latestTimeUpdate.Equal(mark) {
 			y.pending = 0
 		}
-		res = y.drain()
+		res = reply + y.drain()
 		if res == "" {
 			res = "-"
 		}
-		if err != nil {
-			res += "!"
+		if err != nil && y.h == nil {
+			res += "!" // through the Handler the error is only logged
 		}
 		return res
 	}
@@ -406,12 +511,74 @@ func (y *c30Sys) full() string {
 
 func c30Header(h string) *c30Sys {
 	f := strings.Fields(h)
-	if len(f) != 3 {
+	via := len(f) == 4 && f[3] == "h"
+	if len(f) != 3 && !via {
 		panic("bad header")
 	}
 	a, _ := strconv.Atoi(f[0])
 	b, _ := strconv.Atoi(f[1])
-	return c30New(uint32(a), uint32(b), f[2] != "0")
+	return c30New(uint32(a), uint32(b), f[2] != "0", via)
+}
+
+func (y *c30Sys) reservedSet() (r [c30NP]bool) {
+	for i, id := range c30IDs {
+		_, r[i] = y.ps.reservedNode[id]
+	}
+	return r
+}
+
+// unreserved lists (ascending) the peers that were reserved before and are not any more.
+func (y *c30Sys) unreserved(before [c30NP]bool) string {
+	after := y.reservedSet()
+	out := ""
+	for i := range before {
+		if before[i] && !after[i] {
+			out += strconv.Itoa(i)
+		}
+	}
+	return out
+}
+
+// srOrd reconstructs, after a setReservedPeer, an order of the unreserved peers that explains what
+// happened: peers dropped later come later (their Drop messages are in processing order), a peer
+// whose node is missing made removeReservedPeers return and is last; the others are first.
+func (y *c30Sys) srOrd(before [c30NP]bool, msgs string) string {
+	removed := y.unreserved(before)
+	var firstPart, dropped, last string
+	for i := 0; i+1 < len(msgs); i += 2 {
+		if msgs[i] == 'D' && strings.IndexByte(removed, msgs[i+1]) >= 0 {
+			dropped += string(msgs[i+1])
+		}
+	}
+	for _, c := range removed {
+		if strings.ContainsRune(dropped, c) {
+			continue
+		}
+		if _, ok := y.ps.peerState.nodes[c30IDs[int(c-'0')]]; ok {
+			firstPart += string(c)
+		} else {
+			last += string(c)
+		}
+	}
+	if out := firstPart + dropped + last; out != "" {
+		return out
+	}
+	return "-"
+}
+
+func c30SortDigits(s string) string {
+	if s == "-" {
+		return ""
+	}
+	b := []byte(s)
+	sort.Slice(b, func(i, j int) bool { return b[i] < b[j] })
+	out := b[:0]
+	for i, c := range b {
+		if i == 0 || c != b[i-1] {
+			out = append(out, c)
+		}
+	}
+	return string(out)
 }
 
 // c30Retries bounds the search for the map order that reproduces a hint.
@@ -419,6 +586,7 @@ var c30Retries = vhEnvInt("VERIF_C30_RETRIES", 20000)
 
 func c30RunSeq(hdr, body string) string {
 	y := c30Header(hdr)
+	defer y.close()
 	annotate := vhEnvInt("VERIF_C30_ANNOTATE", 0) != 0
 	var outs []string
 	var annotated []string
@@ -432,7 +600,8 @@ func c30RunSeq(hdr, body string) string {
 			hint = last[1:]
 			tok = tok[:len(tok)-1]
 		}
-		if tok[0] == "adv" {
+		if tok[0] == "adv" || tok[0] == "sp" || tok[0] == "so" {
+			// no map-order dependence: applied once
 			outs = append(outs, y.record(y.do(tok)))
 			annotated = append(annotated, strings.Join(tok, " "))
 			continue
@@ -441,13 +610,24 @@ func c30RunSeq(hdr, body string) string {
 		if want == "" {
 			want = "-"
 		}
+		wantGone := ""
+		if tok[0] == "sr" {
+			if len(tok) == 2 && annotate {
+				tok = append(tok, "-")
+			}
+			if len(tok) != 3 {
+				panic("bad sr")
+			}
+			wantGone = c30SortDigits(tok[2])
+		}
 		sn := y.snapshot()
+		before := y.reservedSet()
 		got := ""
 		ok := false
 		first, varied := "", false
 		for try := 0; try < c30Retries; try++ {
 			if try == 400 && !varied {
-				break // the op is deterministic here and does not emit the hinted messages
+				break // the op is deterministic here and does not do what the line says
 			}
 			if try > 0 {
 				y.restore(sn)
@@ -465,13 +645,17 @@ func c30RunSeq(hdr, body string) string {
 				outs = append(outs, "panic")
 				return strings.Join(outs, ";")
 			}
-			if annotate || strings.TrimSuffix(got, "!") == want {
+			gone := ""
+			if tok[0] == "sr" {
+				gone = y.unreserved(before)
+			}
+			if annotate || (strings.TrimSuffix(got, "!") == want && gone == wantGone) {
 				ok = true
 				break
 			}
 			if try == 0 {
-				first = got
-			} else if got != first {
+				first = got + "/" + gone
+			} else if got+"/"+gone != first {
 				varied = true
 			}
 		}
@@ -479,7 +663,11 @@ func c30RunSeq(hdr, body string) string {
 			outs = append(outs, "badhint")
 			return strings.Join(outs, ";")
 		}
-		annotated = append(annotated, strings.Join(tok, " ")+" >"+strings.TrimSuffix(strings.TrimSuffix(got, "!"), "-"))
+		msgs := strings.TrimSuffix(strings.TrimSuffix(got, "!"), "-")
+		if tok[0] == "sr" {
+			tok[2] = y.srOrd(before, msgs)
+		}
+		annotated = append(annotated, strings.Join(tok, " ")+" >"+msgs)
 		outs = append(outs, y.record(got))
 	}
 	if annotate {
@@ -586,13 +774,16 @@ func c30PeerList(r *vhRng, y *c30Sys, want func(i int) bool) string {
 	return b.String()
 }
 
-func c30GenSeq(r *vhRng) string {
+func c30GenSeq(r *vhRng, via bool) string {
 	maxIn, maxOut := r.Intn(4), r.Intn(4)
 	ro := 0
 	if r.Chance(1, 4) {
 		ro = 1
 	}
 	hdr := fmt.Sprintf("%d %d %d", maxIn, maxOut, ro)
+	if via {
+		hdr += " h"
+	}
 	nops := 1 + r.Intn(12)
 	if r.Chance(1, 2) {
 		nops = 8 + r.Intn(40)
@@ -601,6 +792,7 @@ func c30GenSeq(r *vhRng) string {
 	var ops []string
 	vhWithTimeout(20000, func() string {
 		y := c30Header(hdr)
+		defer y.close()
 		st := y.ps.peerState
 		connected := func(i int) bool {
 			n, ok := st.nodes[c30IDs[i]]
@@ -614,21 +806,46 @@ func c30GenSeq(r *vhRng) string {
 		for k := 0; k < nops; k++ {
 			var tok []string
 			switch w := r.Intn(100); {
-			case w < 18:
+			case w < 16:
 				tok = []string{"ap", c30PeerList(r, y, nil)}
-			case w < 32:
+			case w < 29:
 				tok = []string{"in", c30PeerList(r, y, notConn)}
-			case w < 44:
+			case w < 40:
 				tok = []string{"dc", c30PeerList(r, y, connected)}
-			case w < 62:
+			case w < 43:
+				tok = []string{"dcr", c30PeerList(r, y, connected)}
+			case w < 59:
 				tok = []string{"rep", strconv.FormatInt(c30Int32(r), 10), c30PeerList(r, y, nil)}
-			case w < 70:
+			case w < 66:
 				tok = []string{"ar", c30PeerList(r, y, nil)}
-			case w < 78:
+			case w < 72:
 				tok = []string{"rr", c30PeerList(r, y, reserved)}
-			case w < 85:
+			case w < 78:
+				// setReservedPeer: any subset, sometimes with repetitions
+				m := ""
+				for i := 0; i < c30NP; i++ {
+					if r.Chance(2, 5) {
+						m += strconv.Itoa(i)
+					}
+				}
+				if r.Chance(1, 6) {
+					m += strconv.Itoa(r.Intn(c30NP))
+				}
+				if m == "" {
+					m = "-"
+				}
+				tok = []string{"sr", m, "-"}
+			case w < 84:
 				tok = []string{"rp", c30PeerList(r, y, nil)}
-			case w < 90:
+			case w < 87:
+				tok = []string{"sp"}
+			case w < 88:
+				if via {
+					tok = []string{"so"}
+				} else {
+					tok = []string{"sp"}
+				}
+			case w < 92:
 				tok = []string{"tk"}
 			default:
 				k := r.Pick(1, 1, 1, 2, 3, 5, 10, 40, 200, 1200)
@@ -647,13 +864,18 @@ func c30GenSeq(r *vhRng) string {
 			mu.Lock()
 			ops = append(ops, line) // recorded before the call: a hang or panic leaves the op without a hint
 			mu.Unlock()
-			if tok[0] == "adv" {
+			if tok[0] == "adv" || tok[0] == "sp" || tok[0] == "so" {
 				y.do(tok)
 				continue
 			}
+			before := y.reservedSet()
 			got := strings.TrimSuffix(y.do(tok), "!")
 			if got == "-" {
 				got = ""
+			}
+			if tok[0] == "sr" {
+				tok[2] = y.srOrd(before, got)
+				line = strings.Join(tok, " ")
 			}
 			mu.Lock()
 			ops[len(ops)-1] = line + " >" + got
@@ -677,7 +899,13 @@ func c30Gen(r *vhRng) string {
 	case w < 12:
 		return "const " + []string{"BannedThresholdValue", "disconnectReputationChange", "MinInt32", "MaxInt32"}[r.Intn(4)]
 	}
-	return c30GenSeq(r)
+	return c30GenSeq(r, false)
 }
 
 func TestVerifC30(t *testing.T) { vhMain(t, c30Gen, c30Run) }
+
+// TestVerifC30H drives the real Handler (actor goroutine, action queue, result channel) through its
+// public API; the model is the same: the actor applies the calls in order (theorem C30_actor_fifo).
+func TestVerifC30H(t *testing.T) {
+	vhMain(t, func(r *vhRng) string { return c30GenSeq(r, true) }, c30Run)
+}
